@@ -9,7 +9,7 @@ from .. import core, runner
 from . import c03
 
 THEOREMS = ["ZI.AttrsW.C15_agree", "ZI.AttrsW.C15_present", "ZI.AttrsW.C15_pinned_violates", "ZI.AttrsW.C15_get", "ZI.AttrsW.get_memoOk",
-            "ZI.AttrsW.setBases_memoOk", "ZI.AttrsW.C15_tags", "ZI.AttrsW.C15_tag_first", "ZI.AttrsW.C15_invariants", "ZI.AttrsW.C15_follow", "ZI.AttrsW.C15_get_history", "ZI.AttrsW.winv_run", "ZI.AttrsW.winv_step", "ZI.AttrsW.step_untouched", "ZI.AttrsW.sroFresh_congr",
+            "ZI.AttrsW.setBases_memoOk", "ZI.AttrsW.C15_settag_listed", "ZI.AttrsW.C15_settag_resolves", "ZI.AttrsW.C15_settag_other", "ZI.AttrsW.C15_settag_unrelated", "ZI.AttrsW.setTag_get", "ZI.AttrsW.C15_tags", "ZI.AttrsW.C15_tag_first", "ZI.AttrsW.C15_invariants", "ZI.AttrsW.C15_follow", "ZI.AttrsW.C15_get_history", "ZI.AttrsW.winv_run", "ZI.AttrsW.winv_step", "ZI.AttrsW.step_untouched", "ZI.AttrsW.sroFresh_congr",
             "ZI.Attrs.nad_eq_get", "ZI.Upd.get?_fold_reverse"]
 NAMES = ["a", "b", "c", "d"]
 TAGS = ["p", "q", "r"]
@@ -48,7 +48,18 @@ def gen_script(rnd, tier):
         else:
             bs = []
         ib[i] = bs or [0]
-        L.append("iface %d %s %s %s %s" % ((i, ",".join(map(str, bs)) or "-") + members()))
+        m_ = members()
+        if i == 1:
+            m_ = (m_[0], "-", m_[2])       # interface 1 starts WITHOUT tagged values (see the `settag` block below)
+        L.append("iface %d %s %s %s %s" % ((i, ",".join(map(str, bs)) or "-") + m_))
+    # an ancestor that has NO tagged values gets its first one after every descendant has been asked for its tags, with no re-basing
+    # in between (seeded change o15a memoised, per resolution order, which interfaces of `__iro__` carry tags at all)
+    d1 = sorted(j for j in ib if j and 1 in c03.reach(ib, j))
+    for j in d1:
+        L.append("q %d" % j)
+    L.append("settag 1 %s %d" % (rnd.choice(TAGS), rnd.randint(1, 3)))
+    for j in d1:
+        L.append("q %d" % j)
     # some interfaces are watched by a dependent that asks them about every name from inside each change notification
     for i in range(1, n + 1):
         if rnd.random() < 0.3:
@@ -61,6 +72,11 @@ def gen_script(rnd, tier):
                 L.append("get %d %s" % (i, rnd.choice(NAMES)))
             else:
                 L.append("q %d" % i)
+        if rnd.random() < 0.35:
+            st_ = rnd.randint(1, n)
+            L.append("settag %d %s %d" % (st_, rnd.choice(TAGS), rnd.randint(1, 3)))
+            for j in sorted(j for j in ib if j and st_ in c03.reach(ib, j)):
+                L.append("q %d" % j)
         s = rnd.randint(1, n)
         down = {j for j in ib if s in c03.reach(ib, j)}
         cand = [j for j in range(1, n + 1) if j not in down]
@@ -177,6 +193,9 @@ def oracle(chk, lines, outs):
                     direct[k][nm_] = int(d_)
             tags[k] = dict((e.split(":")[0], int(e.split(":")[1])) for e in lst(f[4]))
             invs[k] = [(int(e.split(":")[0]), e.split(":")[1] == "1") for e in lst(f[5])]
+        elif f[0] == "settag":
+            tags[int(f[1])][f[2]] = int(f[3])
+            chk.count("tagged_values_set_on_live_interfaces")
         elif f[0] == "watch":
             chk.count("interfaces_watched_from_inside_notifications")
         elif f[0] == "set" and "WATCH-FAIL" in out:
